@@ -49,7 +49,7 @@ func TestC10(t *testing.T) {
 		if e.cfg.Thorough() {
 			depths = append(depths, 1000000)
 		}
-		e.feed(feedOpts{shortlexQ: 3, shortlexT: 5, sweepQ: 100, sweepT: 3000, sweepMaxLen: 64, nestQ: 60, nestT: 600, indentQ: 16, indentT: 300, nestDepths: depths,
+		e.feed(feedOpts{shortlexQ: 3, shortlexT: 5, sweepQ: 100, sweepT: 3000, sweepMaxLen: 64, nestQ: 60, nestT: 600, indentQ: 16, indentT: 300, numShapes: 2, strRuns: true, nestDepths: depths,
 			mutQ: 30000, mutT: 1000000, nextByte: false, alignment: true, noDepthSites: true}, evalBytes)
 		// 1b. number literals on the rarest conversion paths (exact ties incl. 2^-1075, the
 		// overflow threshold, 800-digit mantissas): a panic deep in the float fallback is a
@@ -154,34 +154,34 @@ func TestC10(t *testing.T) {
 			}
 		}
 		// 4. hostile handler offsets: grid over member kinds x pool offsets x position
-		evalHandler := func(kind string, in []byte, k byte, codes []int64, reentrant bool) error {
+		evalHandler := func(kind string, in []byte, k byte, codes []int64, mode int64) error {
 			n++
 			cfg := n % 3
 			buf := bufferConfig(cfg % 2)
 			if cfg == 2 {
 				buf = used
 			}
-			nt, err := c10Handler(in, k, codes, reentrant, buf)
-			key := core.HashInts(core.Hash(in), append([]int64{int64(k), b2i(reentrant)}, codes...)...)
+			nt, err := c10Handler(in, k, codes, mode, buf)
+			key := core.HashInts(core.Hash(in), append([]int64{int64(k), mode}, codes...)...)
 			r.Eval(key, nt)
 			if nt && r.WantSample(key) {
-				r.SampleInput(key, kind, in, "traversal", string(k), "offset_codes", codes, "reentrant", reentrant)
+				r.SampleInput(key, kind, in, "traversal", string(k), "offset_codes", codes, "reentrant", mode&1 == 1, "error_with_last_offset", mode>>1)
 			}
 			if err != nil {
 				if cfg == 2 { // pin to a reproducible buffer configuration if possible
 					for _, alt := range []int64{0, 2} {
-						if _, e2 := c10Handler(in, k, codes, reentrant, bufferConfig(alt)); e2 != nil {
+						if _, e2 := c10Handler(in, k, codes, mode, bufferConfig(alt)); e2 != nil {
 							cfg, err = alt, e2
 							break
 						}
 					}
 				}
-				ints := append([]int64{int64(k), b2i(reentrant), cfg}, codes...)
+				ints := append([]int64{int64(k), mode, cfg}, codes...)
 				return &caseErr{&core.Case{Prop: "C10", Kind: "handler", In: append([]byte(nil), in...), Ints: ints}, err}
 			}
 			return nil
 		}
-		if e.enumStage("handler-grid", "22 container documents x member position 0..3 x 28 pool offsets (MinInt..MaxInt, exact+-1, mid-token, len, len+1, ...) x {plain, re-entrant}", true) {
+		if e.enumStage("handler-grid", "22 container documents x member position 0..3 x 28 pool offsets (MinInt..MaxInt, exact+-1, mid-token, len, len+1, ...) x {plain, re-entrant, with a standard-library sentinel error (io.EOF, context.Canceled, ...) alongside the last offset}", true) {
 			docs := []string{`["abc"]`, `[1, "abc"]`, `[[1,2],"x"]`, `[{"a":1}]`, `[1,2,3]`, `["a","b","c"]`, `[[],[],[]]`, `[{},{}]`, `["\né",[["x"]]]`, ` [ "a" , [ 1 ] , { "b" : 2 } ] `,
 				`{"a":"abc"}`, `{"a":1,"b":"abc"}`, `{"a":[1,2],"b":"x"}`, `{"a":{"b":1}}`, `{"a":1,"b":2}`, `{"a":"x","b":"y","c":"z"}`, `{"a":[],"b":{}}`, ` { "a" : "x" , "b" : [ 1 ] } `,
 				`["abc"`, `{"a":"abc"`, `[[[[["x"]]]]]`, `{"k":{"k":{"k":"v"}}}`}
@@ -193,7 +193,7 @@ func TestC10(t *testing.T) {
 				in := []byte(d)
 				for pos := 0; pos < 4; pos++ {
 					for code := int64(0); code < hostilePoolSize; code++ {
-						for _, re := range []bool{false, true} {
+						for _, re := range []int64{0, 1, 2 + 2*(code%int64(len(wellKnownErrs))), 2 + 2*((code+pos64(pos))%int64(len(wellKnownErrs))) + 1} {
 							codes := make([]int64, pos+1)
 							for i := range codes {
 								codes[i] = 7 // exact for earlier members
@@ -233,7 +233,10 @@ func TestC10(t *testing.T) {
 					codes[i] = int64(rapid.IntRange(0, hostilePoolSize-1).Draw(rt, "code"))
 				}
 			}
-			re := rapid.IntRange(0, 3).Draw(rt, "reentrant") == 0
+			re := b2i(rapid.IntRange(0, 3).Draw(rt, "reentrant") == 0)
+			if nc > 0 && rapid.IntRange(0, 2).Draw(rt, "err?") == 0 {
+				re += 2 * int64(1+rapid.IntRange(0, len(wellKnownErrs)-1).Draw(rt, "errsel"))
+			}
 			r.Begin("handler-rapid", b)
 			if err := evalHandler("handler-rapid", b, kind, codes, re); err != nil {
 				failRapid(rt, r, caseOf("C10", "handler", b, err), err)
@@ -242,6 +245,8 @@ func TestC10(t *testing.T) {
 		e.r.Extra("entry_points", len(c10Entries))
 	})
 }
+
+func pos64(p int) int64 { return int64(p) }
 
 func sortStrings(s []string) {
 	for i := 1; i < len(s); i++ {
